@@ -19,14 +19,30 @@ theorem execOp_counts_unwrap (c : Cfg) (w : World) (self wc : Option Id) (k : Na
     have hxlt := getH_lt h hx
     split
     · exact h.ret _
-    · have h1 := ((hH.takeTable hx).removeFromList x).upd_same x (fun o => { o with valLive := false }) rfl rfl (fun hb => hb)
+    · rename_i hg
+      have hrc1 : (w.heap x).rc = 1 := by
+        by_cases e : (w.heap x).rc = 1
+        · exact e
+        · exact absurd (Or.inl e) hg
+      have h1 := ((hH.takeTable hx).removeFromList x).upd_same x (fun o => { o with valLive := false }) rfl rfl
+      -- the pointer being unwrapped was the only one: nothing else refers to the box
+      have hz : refs ((((w.setH k none).removeFromList x).upd x fun o => { o with valLive := false })) x = 0 := by
+        have hle := h1.le x
+        have hrcW : (((((w.setH k none).removeFromList x).upd x fun o => { o with valLive := false })).heap x).rc = 1 := by
+          rw [upd_heap_same]
+          show (((w.setH k none).removeFromList x).heap x).rc = 1
+          rw [removeFromList_rc]; exact hrc1
+        rw [hrcW] at hle
+        have hc : [x].count x = 1 := by simp
+        omega
+      have h1' := h1.forget (E' := []) (by intro y; simp)
       split
-      · have h3 := (((h1.dropMetadata x).freeBox x).ret (Ret.unwrapped x)).forget (E' := []) (by intro y; simp)
+      · have h3 := ((h1'.dropMetadata x).freeBox x (by simpa using hz)).ret (Ret.unwrapped x)
         refine (CountsH.pushFrame (.dropMoved x) h3 ?_).toCounts
         intro i hi
         simp only [Frame.ids, List.mem_singleton] at hi
         subst hi; simpa using hxlt
-      · have h3 := ((h1.freeBox x).ret (Ret.unwrapped x)).forget (E' := []) (by intro y; simp)
+      · have h3 := (h1'.freeBox x (by simpa using hz)).ret (Ret.unwrapped x)
         refine (CountsH.pushFrame (.dropMoved x) h3 ?_).toCounts
         intro i hi
         simp only [Frame.ids, List.mem_singleton] at hi
